@@ -132,6 +132,15 @@ type ReplayResult struct {
 	Details     []string `json:"details"`
 }
 
+func hasRace(classes []string) bool {
+	for _, c := range classes {
+		if strings.Contains(c, "/race/") {
+			return true
+		}
+	}
+	return false
+}
+
 func envInt(k string, def int) int {
 	if v := os.Getenv(k); v != "" {
 		if n, err := strconv.Atoi(v); err == nil {
@@ -219,6 +228,22 @@ func WorkerMain(t *testing.T, w World) {
 		for _, v := range o.Violations {
 			rr.Classes = append(rr.Classes, v.Class)
 			rr.Details = append(rr.Details, v.Detail)
+		}
+		// The race detector's shadow memory keeps four accesses per word and
+		// replaces them pseudo-randomly, so whether it still remembers the
+		// first access of a conflicting pair varies from execution to
+		// execution. The schedule is identical every time; only the oracle's
+		// memory is not. Give it a few more identical executions.
+		if os.Getenv("SIM_RACE") == "1" && s.Expect != nil && strings.Contains(s.Expect.ViolationClass, "/race/") {
+			for k := 0; k < 6 && !hasRace(rr.Classes); k++ {
+				o2 := runOnce(t, w, s, fmt.Sprintf("replay.again%d", k))
+				for _, v := range o2.Violations {
+					if strings.Contains(v.Class, "/race/") {
+						rr.Classes = append(rr.Classes, v.Class)
+						rr.Details = append(rr.Details, v.Detail)
+					}
+				}
+			}
 		}
 		res.Replayed = rr
 		res.Runs = 1
